@@ -36,6 +36,83 @@ ASSUMPTIONS = [
 
 Frame = Tuple[int, bytes]
 
+_LAYER: List[Any] = []
+
+
+def _tool_layer() -> Any:
+    """the layer the snoop tool interprets telegrams with (shipped example database)"""
+    if not _LAYER:
+        import os
+        import odxtools
+        db = odxtools.load_pdx_file(os.path.join(common.REPO, "examples", "somersault.pdx"))
+        _LAYER.append(db.ecus.somersault_lazy)
+    return _LAYER[0]
+
+
+def tool_leg(col: common.Collector, stream: List[Frame], base: str,
+             faults: List[Tuple[str, int, Any]], fmt: str) -> None:
+    """The snoop tool end to end: the frames as a candump-style text on its standard input,
+    reassembled by the decoder it builds and handed to its telegram handler.  Nothing may raise,
+    and the handler has to be given exactly the telegrams the plain machine reports for the same
+    frames."""
+    import argparse
+    import asyncio
+    import sys
+    from odxtools.isotp_state_machine import IsoTpStateMachine
+    from .c12 import render
+    try:
+        import odxtools.cli.snoop as snoop
+    except ImportError:
+        col.count("snoop-tool-unavailable")
+        return
+    rx, tx = IDS[0], IDS[1]
+    plain = IsoTpStateMachine([rx, tx])
+    want: List[Tuple[int, bytes]] = []
+    try:
+        for cid, data in stream:
+            want += [(rid, bytes(pl)) for rid, pl in plain.decode_rx_frame(cid, data)]
+    except Exception:
+        return  # the frame-level monitor reports that
+    seen: List[Tuple[int, bytes]] = []
+    orig = snoop.handle_telegram
+
+    def recording(telegram_id: int, payload: bytes) -> None:
+        seen.append((telegram_id, bytes(payload)))
+        orig(telegram_id, payload)
+
+    old_stdin = sys.stdin
+    snoop.odx_diag_layer = _tool_layer()
+    snoop.last_request = None
+    snoop.handle_telegram = recording
+    sink = io.StringIO()
+    err: Optional[BaseException] = None
+    try:
+        sys.stdin = io.StringIO(render(stream, fmt))
+        with contextlib.redirect_stdout(sink), contextlib.redirect_stderr(sink):
+            asyncio.run(snoop.passive_main(argparse.Namespace(rx=hex(rx), tx=hex(tx), channel=None)))
+    except Exception as e:  # the outcome is data
+        err = e
+    finally:
+        sys.stdin = old_stdin
+        snoop.handle_telegram = orig
+    col.ev()
+    col.count("snoop-tool-runs")
+    col.count("snoop-tool-format:" + fmt)
+    fkinds = "+".join(sorted(set(f[0] for f in faults))) or "none"
+    detail = {"base": base, "faults": [list(f) for f in faults], "format": fmt,
+              "frames": [[c, d] for c, d in stream]}
+    if err is not None:
+        import traceback
+        tb = traceback.extract_tb(err.__traceback__)
+        where = tb[-1].name if tb else "?"
+        col.violation(("tool-raises", type(err).__name__, where),
+                      dict(detail, problem=f"{type(err).__name__}: {err}", telegrams_before=len(seen)))
+        return
+    col.count("snoop-tool-telegrams", len(seen))
+    if seen != want:
+        col.violation(("tool-telegrams-differ", fmt.split("-")[0], fkinds if len(faults) < 2 else "double"),
+                      dict(detail, handler_got=seen[:8], plain_machine=want[:8]))
+
 
 def base_streams() -> List[Tuple[str, List[Frame]]]:
     A, B = IDS[0], IDS[1]
@@ -54,6 +131,11 @@ def base_streams() -> List[Tuple[str, List[Frame]]]:
     a = seg(A, 10, 20)
     b = seg(B, 11, 16)
     res.append(("two-ids", [a[0], b[0], a[1], b[1], b[2], a[2]]))
+    # what the telegrams MEAN is nothing to the reassembler, but the tools that consume them look
+    # at the first bytes: complete, cut-off and pending negative responses
+    res.append(("uds-answers", [(A, bytes([0x02, 0x10, 0x01])), (B, bytes([0x03, 0x7F, 0x10, 0x78])),
+                                (B, bytes([0x03, 0x7F, 0x10, 0x11])), (B, bytes([0x02, 0x7F, 0x10])),
+                                (B, bytes([0x01, 0x7F])), (B, bytes([0x02, 0x50, 0x01]))]))
     return res
 
 
@@ -133,7 +215,7 @@ def recovery_suffix(ids: Sequence[int]) -> Tuple[List[Frame], Dict[int, List[byt
 
 
 def judge(col: common.Collector, stream: List[Frame], ids: Sequence[int], base: str,
-          faults: List[Tuple[str, int, Any]], fault_free: bool = False) -> None:
+          faults: List[Tuple[str, int, Any]], fault_free: bool = False, tool_every: int = 0) -> None:
     from odxtools.isotp_state_machine import IsoTpStateMachine
     log: List[Tuple] = []
 
@@ -262,12 +344,16 @@ def judge(col: common.Collector, stream: List[Frame], ids: Sequence[int], base: 
     col.count("streams_with_type_error_callback", 1 if any(e[0] == "type" for e in log) else 0)
     col.count("fault:" + fkinds if len(faults) < 2 else "fault:double")
     col.nontrivial(tuple((c, d) for c, d in stream))
+    if tool_every and (len(stream) * 7 + sum(len(d) for _, d in stream)) % tool_every == 0:
+        from .c12 import FORMATS
+        tool_leg(col, stream, base, faults,
+                 FORMATS[(len(stream) + sum(d[0] for _, d in stream if d)) % len(FORMATS)])
 
 
 def part_single(task: Tuple, col: common.Collector) -> None:
     name, stream, ids = task
     for f in single_faults(stream):
-        judge(col, apply_fault(stream, f), ids, name, [f])
+        judge(col, apply_fault(stream, f), ids, name, [f], tool_every=1)
     col.sample({"base": name, "frames": [[c, d.hex()] for c, d in stream[:6]],
                 "example_fault": ["pci", 0, 2],
                 "faulted": [[c, d.hex()] for c, d in apply_fault(stream, ("pci", 0, 2))[:6]]},
@@ -278,7 +364,7 @@ def part_double(task: Tuple, col: common.Collector) -> None:
     name, stream, ids, pairs = task
     for f1, f2 in pairs:
         s1 = apply_fault(stream, f1)
-        judge(col, apply_fault(s1, f2), ids, name, [f1, f2])
+        judge(col, apply_fault(s1, f2), ids, name, [f1, f2], tool_every=5)
 
 
 def part_random(task: Tuple, col: common.Collector) -> None:
@@ -303,7 +389,7 @@ def part_random(task: Tuple, col: common.Collector) -> None:
                         stream.append((cid, f))
                 continue
             stream.append((cid, d))
-        judge(col, stream, ids, "random", [("random", 0, None)])
+        judge(col, stream, ids, "random", [("random", 0, None)], tool_every=2)
 
 
 def run(tier: str, col: common.Collector) -> None:
@@ -312,7 +398,7 @@ def run(tier: str, col: common.Collector) -> None:
     for name, stream in bases:
         ids = sorted(set(c for c, _ in stream))
         # fault-free base stream must pass the same monitor (guards the oracle itself)
-        judge(col, list(stream), ids, name, [], fault_free=True)
+        judge(col, list(stream), ids, name, [], fault_free=True, tool_every=1)
         tasks.append((name, stream, ids))
     common.pmap(part_single, tasks, col)
     r = random.Random(common.seed() + 13)
